@@ -210,9 +210,10 @@ PROPS["C02"] = {
     "assumptions": ["MaxSize 2, two keys"],
     "outside_bound": ["bound on unaccounted entries while writes are in flight", "more than 2 clients / 2 ops", "preemption bound above 1"],
     "quick": [H("ZZ_C02_Program", params={"PRE": 0}, reach=["drained"], bounds="2 clients x 2 ops, cap 2, preemptions 0, costs symbolic"),
-              H("ZZ_C02_Program", params={"PRE": 0, "WQ": 1}, reach=["drained"], bounds="same with a write queue of one slot: writers block on the full queue (a writer that skipped the accounting instead would leave an untracked entry)"),
+              H("ZZ_C02_Program", params={"PRE": 0, "WQ": 1, "OPS": 1}, reach=["drained"], bounds="one op per client with a write queue of one slot: writers block on the full queue (a writer that skipped the accounting instead would leave an untracked entry)"),
               H("ZZ_C02_ExpiryWindow", params={"PRE": 1}, reach=["settled"], bounds="TTL extension vs expiry path at atomic granularity, preemptions 1")],
     "thorough": [H("ZZ_C02_Program", params={"PRE": 1}, reach=["drained"], bounds="2 clients x 2 ops, cap 2, preemptions 1"),
+                 H("ZZ_C02_Program", params={"PRE": 0, "WQ": 1}, reach=["drained"], bounds="2 clients x 2 ops, one-slot write queue"),
                  H("ZZ_C02_Program", params={"PRE": 0, "CAP": 3}, reach=["drained"]),
                  H("ZZ_C02_ExpiryWindow", params={"PRE": 2}, reach=["settled"])],
 }
@@ -340,8 +341,9 @@ PROPS["C15"] = {
     "assumptions": ["workers given time to keep up (settle after each call)"],
     "outside_bound": ["more than 3 writes", "more than one worker"],
     "quick": [H("ZZ_C15_Demotion", reach=["filled"]), H("ZZ_C15_Demotion", params={"FAIL": 1}, reach=["filled"], bounds="every failure pattern of 2 demotions"),
-              H("ZZ_C15_LoaderDemotion", reach=["loaded-two"])],
-    "thorough": [H("ZZ_C15_Demotion", params={"N": 4}, reach=["filled"]), H("ZZ_C15_Demotion", params={"FAIL": 1, "N": 4}, reach=["filled"]),
+              H("ZZ_C15_LoaderDemotion", reach=["loaded-two"]),
+              H("ZZ_C14_StalePromoted", reach=["evicted-again"], bounds="demote, promote, overwrite, evict again: the overwritten value must reach the secondary tier")],
+    "thorough": [H("ZZ_C14_StalePromoted", reach=["evicted-again"]), H("ZZ_C15_Demotion", params={"N": 4}, reach=["filled"]), H("ZZ_C15_Demotion", params={"FAIL": 1, "N": 4}, reach=["filled"]),
                  H("ZZ_C15_LoaderDemotion", reach=["loaded-two"])],
 }
 
@@ -352,9 +354,10 @@ PROPS["C18"] = {
     "level_note": "Trusted: go/ssa, executor encoding of the unsafe string-header cast, cvc5/z3. Claimed in part: key types up to 8 bytes of scalars; the go1.24 maphash variant is not in this image's default toolchain; hash quality is out of scope.",
     "assumptions": ["xxh3 is a function (uninterpreted)"],
     "outside_bound": ["key types wider than 8 bytes", "struct keys with padding, string/float/interface fields (excluded by the property for pre-1.24)", "go1.24+ hasher"],
-    "quick": [H("ZZ_C18_Hasher", reach=["hashed"], solver="cvc5"), H("ZZ_C18_StringKeyFunc", reach=["hashed"], solver="cvc5"), H("ZZ_C18_Collision", reach=["collided"])],
+    "quick": [H("ZZ_C18_Hasher", reach=["hashed"], solver="cvc5"), H("ZZ_C18_StringKeyFunc", reach=["hashed"], solver="cvc5"), H("ZZ_C18_Collision", reach=["collided"]),
+              H("ZZ_C18_CollisionLoading", params={"PRE": 1}, reach=["both-loaded"], bounds="two colliding keys loaded concurrently through the loading cache, preemptions 1")],
     "thorough": [H("ZZ_C18_Hasher", reach=["hashed"], solver="cvc5"), H("ZZ_C18_StringKeyFunc", reach=["hashed"], solver="cvc5"), H("ZZ_C18_Collision", reach=["collided"]),
-                 H("ZZ_C18_Collision", params={"DOOR": 1}, reach=["collided"])],
+                 H("ZZ_C18_Collision", params={"DOOR": 1}, reach=["collided"]), H("ZZ_C18_CollisionLoading", params={"PRE": 2}, reach=["both-loaded"])],
 }
 
 def _c19(pre):
